@@ -85,7 +85,7 @@ class AMachine(Machine):
 
     def gen_knobs(self, rng):
         return {"maxline": rng.choice([1, 2, 3, 5, 8, 50, 50]), "quantum": rng.choice([0, 0, 1, 2, 3, 7]),
-                "cache_limit": rng.choice([3, 4, 6, 10, 10000, 10000]), "warm": rng.random() < 0.15, "carry": rng.random() < 0.5}
+                "cache_limit": rng.choice([3, 4, 6, 10, 10000, 10000]), "warm": rng.random() < 0.15, "carry": rng.random() < 0.5, "twin": rng.random() < 0.3}
 
     def gen(self, rng, steer):
         share = float(os.environ.get("VERIF_GCC_SHARE", self.gcc_share))
@@ -613,7 +613,7 @@ class C20(AMachine):
         for name in a_sim.scratch_regs(arch):
             if name in init and rng.random() < 0.7:
                 init[name] = rng.choice(self.EDGE)
-        knobs = {"maxline": rng.choice([50, 50, 8, 3]), "quantum": 1, "cache_limit": 10000, "warm": False}
+        knobs = {"maxline": rng.choice([50, 50, 8, 3]), "quantum": 1, "cache_limit": 10000, "warm": False, "twin": rng.random() < 0.3}
         cfg = {"arch": arch, "backend": "gcc", "program": lines, "features": ["exotic", "exotic_only"], "init_regs": init,
                "knobs": knobs, "heal": True, "mode": "ops"}
         return {"cfg": cfg, "actions": []}
